@@ -67,7 +67,8 @@ def rnd(rng, lo, hi, nd=3):
 # equipment variations
 
 
-def vary_span_si(rng, ej, *, allow_gain_mode=True, allow_eol=True, allow_policy=True, power_mode=None):
+def vary_span_si(rng, ej, *, allow_gain_mode=True, allow_eol=True, allow_policy=True, power_mode=None,
+                 vary_grid=True):
     """Mutates Span / SI / default Roadm of a legacy equipment JSON in place; returns a description."""
     span = ej['Span'][0]
     si = ej['SI'][0]
@@ -88,6 +89,11 @@ def vary_span_si(rng, ej, *, allow_gain_mode=True, allow_eol=True, allow_policy=
     if rng.random() < 0.3:
         span['voa_margin'] = pick(rng, [1, 0.5, 2])
         span['voa_step'] = pick(rng, [0.5, 0.25, 1])
+    if vary_grid and rng.random() < 0.35:
+        # another reference channel / another design band than the stock 32 GBd on 50 GHz over the full C band
+        si['baud_rate'], si['spacing'] = pick(rng, [(64e9, 75e9), (32e9, 37.5e9), (90e9, 100e9), (45e9, 62.5e9)])
+        if rng.random() < 0.5:
+            si['f_min'], si['f_max'] = pick(rng, [(191.3e12, 195.1e12), (192.0e12, 196.0e12), (191.4e12, 193.6e12)])
     si['power_dbm'] = pick(rng, [0, 0, 1, -1, 2, 0.5, -2])
     si['sys_margins'] = pick(rng, [2, 0, 1.5, 3])
     if rng.random() < 0.5:
